@@ -13,7 +13,7 @@ import (
 
 func init() {
 	register("C10", propMeta{
-		Explanation:  "Decides which data each deletion site can delete and that decode failures surface: (R1) who-may-delete table: the BlobStore.Remove / Registry.Remove call sites of package common are exactly the seven known deletion functions, and each deletion function is called only from its justified callers (live rollback, post-commit cleanup, dead-transaction log replay); (R2) deletions of data a committed state may reference happen only behind the commit point: in phase2Commit the cleanup is unreachable from the failure edge of the all-or-nothing registry update, and the log replay re-runs deleteObsoleteEntries / deleteTrackedItemsValues only when the dead transaction's last logged step shows it had passed the commit point; (R3) the node blobs declared obsolete after a commit are the post-flip INACTIVE ids of the updated handles and the ACTIVE ids (plus logical ids) of the removed handles, taken from the slices returned by activateInactiveNodes / touchNodes; (R4) value blobs: itemActionTracker.manage queues the old value id for deletion only on the path on which the item is re-keyed with a fresh id before its new value is written, so the live id is never queued; the deletion queue is reset only by getForRollbackTrackedItemsValues, which phase1Commit invokes in every attempt before (re)staging values - the ids queued by an abandoned attempt or by the merge replay are thereby dropped before they can reach cleanup; (R6) the undo functions that cannot tell own from foreign state run only under a strict guard that implies the step succeeded for this transaction (shared with C37.R4); (R5) decode failures on the read path are reported, not swallowed: every Unmarshal reachable in nodeRepositoryBackend.get and itemActionTracker.Get has its error returned. (R7) the priority log is removed before the commit's obsolete blobs are deleted (phase2Commit and cleanup).",
+		Explanation:  "Decides which data each deletion site can delete and that decode failures surface: (R1) who-may-delete table: the BlobStore.Remove / Registry.Remove call sites of package common are exactly the seven known deletion functions, and each deletion function is called only from its justified callers (live rollback, post-commit cleanup, dead-transaction log replay); (R2) deletions of data a committed state may reference happen only behind the commit point: in phase2Commit the cleanup is unreachable from the failure edge of the all-or-nothing registry update, and the log replay re-runs deleteObsoleteEntries / deleteTrackedItemsValues only when the dead transaction's last logged step shows it had passed the commit point; (R3) the node blobs declared obsolete after a commit are the post-flip INACTIVE ids of the updated handles and the ACTIVE ids (plus logical ids) of the removed handles, taken from the slices returned by activateInactiveNodes / touchNodes; (R4) value blobs: itemActionTracker.manage queues the old value id for deletion only on the path on which the item is re-keyed with a fresh id before its new value is written, so the live id is never queued; the deletion queue is reset only by getForRollbackTrackedItemsValues, which phase1Commit invokes in every attempt before (re)staging values - the ids queued by an abandoned attempt or by the merge replay are thereby dropped before they can reach cleanup; (R6) the undo functions that cannot tell own from foreign state run only under a strict guard that implies the step succeeded for this transaction (shared with C37.R4); (R5) decode failures on the read path are reported, not swallowed: every Unmarshal reachable in nodeRepositoryBackend.get and itemActionTracker.Get has its error returned. (R7) the priority log is removed before the commit's obsolete blobs are deleted (phase2Commit and cleanup). (R8) the rollback inside the phase-1 conflict retry passes rollbackTrackedItemsValues=false: the retried attempt does not write the tracked items' value blobs again (refetch-and-merge marks them persisted), so deleting them there would commit items with dangling value ids.",
 		DoesNotCover: "That every id a deletion function receives at run time is unreferenced (a property of histories) is not decided; crash points are not enumerated (C08).",
 	}, runC10)
 	register("C11", propMeta{
